@@ -258,21 +258,37 @@ func (_this *Reader) readSmallULEB128(name string, maxValue uint64) uint64 {
 }
 
 func (_this *Reader) readIntoBuffer(count int) {
-	_this.expandBufferTo(count)
-	dst := _this.buffer[:count]
-	for len(dst) > 0 {
-		if bytesRead, err := _this.Read(dst); err != nil {
+	// The count comes from the document and cannot be trusted: grow the buffer
+	// as the data actually arrives instead of allocating it all up front.
+	filled := 0
+	for filled < count {
+		if filled == len(_this.buffer) {
+			_this.growBuffer(filled, count)
+		}
+		end := len(_this.buffer)
+		if end > count {
+			end = count
+		}
+		if bytesRead, err := _this.Read(_this.buffer[filled:end]); err != nil {
 			_this.unexpectedError(err)
 		} else {
-			dst = dst[bytesRead:]
+			filled += bytesRead
 		}
 	}
 }
 
-func (_this *Reader) expandBufferTo(minSize int) {
-	if len(_this.buffer) < minSize {
-		_this.buffer = make([]byte, minSize*2)
+// Double the buffer (at most to twice the wanted size), keeping what has been read so far.
+func (_this *Reader) growBuffer(filled int, wanted int) {
+	newSize := len(_this.buffer) * 2
+	if newSize < decoderStartBufferSize {
+		newSize = decoderStartBufferSize
 	}
+	if newSize > wanted*2 {
+		newSize = wanted * 2
+	}
+	newBuffer := make([]byte, newSize)
+	copy(newBuffer, _this.buffer[:filled])
+	_this.buffer = newBuffer
 }
 
 func (_this *Reader) unexpectedError(err error) {
